@@ -151,7 +151,7 @@ func TestC15(t *testing.T) {
 		var hist []string
 		note := func(f string, a ...interface{}) { hist = append(hist, fmt.Sprintf(f, a...)) }
 		validVerified, mutationsChecked, republish, storedAtLinkKey, linkAtStorageKey, timePassed := 0, 0, 0, 0, 0, 0
-		discardedPublishes, storedManyTimes := 0, 0
+		discardedPublishes, storedManyTimes, authParamsChanged := 0, 0, 0
 
 		checkLinks := func(what string) {
 			for key, want := range modelLinks {
@@ -323,6 +323,17 @@ func TestC15(t *testing.T) {
 				storedManyTimes++
 				note("stored %d times under the key of addr=%q ref=%.8s", n, addr, ref)
 			},
+			"governance_changes_auth_params": func(t *rapid.T) {
+				// governance changes x/auth's parameters (memo size, signature limit, transaction size cost): the registry
+				// holds what it holds and says about it what it said
+				ap := v.App.AccountKeeper.GetParams(v.Ctx)
+				ap.MaxMemoCharacters = []uint64{1, 40, 100, 256, 512}[rapid.IntRange(0, 4).Draw(t, "maxMemo")]
+				ap.TxSigLimit = []uint64{1, 7}[rapid.IntRange(0, 1).Draw(t, "sigLimit")]
+				ap.TxSizeCostPerByte = []uint64{1, 10, 100}[rapid.IntRange(0, 2).Draw(t, "sizeCost")]
+				v.App.AccountKeeper.SetParams(v.Ctx, ap)
+				authParamsChanged++
+				note("x/auth parameters changed: max memo %d", ap.MaxMemoCharacters)
+			},
 			"time_passes": func(t *rapid.T) {
 				// blocks go by (a day, a month, a year, five years): what a stored record says does not change with time
 				v.Advance([]int64{dayNs, 30 * dayNs, yearNs, 5 * yearNs}[rapid.IntRange(0, 3).Draw(t, "dt")])
@@ -371,6 +382,9 @@ func TestC15(t *testing.T) {
 		}
 		if storedAtLinkKey > 0 || linkAtStorageKey > 0 {
 			cl = append(cl, "link_and_signature_keys_coincide")
+		}
+		if authParamsChanged > 0 {
+			cl = append(cl, "auth_parameters_changed_by_governance")
 		}
 		if storedManyTimes > 0 {
 			cl = append(cl, "record_replaced_9_to_24_times_under_one_key")
